@@ -610,34 +610,24 @@ fn compare_values(a: &Value, b: &Value) -> Option<std::cmp::Ordering> {
 }
 
 /// A group key for hash-based aggregation.
+///
+/// Holds the grouping values themselves (under `grafeo_common`'s `HashableValue`
+/// equality), so the key handed back by `to_values` is the value that was grouped on.
 #[derive(Debug, Clone, PartialEq, Eq, Hash)]
-pub struct GroupKey(Vec<GroupKeyPart>);
-
-#[derive(Debug, Clone, PartialEq, Eq, Hash)]
-enum GroupKeyPart {
-    Null,
-    Bool(bool),
-    Int64(i64),
-    String(String),
-}
+pub struct GroupKey(Vec<grafeo_common::types::HashableValue>);
 
 impl GroupKey {
     /// Creates a group key from column values.
     fn from_row(chunk: &DataChunk, row: usize, group_columns: &[usize]) -> Self {
-        let parts: Vec<GroupKeyPart> = group_columns
+        let parts = group_columns
             .iter()
             .map(|&col_idx| {
-                chunk
-                    .column(col_idx)
-                    .and_then(|col| col.get_value(row))
-                    .map_or(GroupKeyPart::Null, |v| match v {
-                        Value::Null => GroupKeyPart::Null,
-                        Value::Bool(b) => GroupKeyPart::Bool(b),
-                        Value::Int64(i) => GroupKeyPart::Int64(i),
-                        Value::Float64(f) => GroupKeyPart::Int64(f.to_bits() as i64),
-                        Value::String(s) => GroupKeyPart::String(s.to_string()),
-                        _ => GroupKeyPart::String(format!("{v:?}")),
-                    })
+                grafeo_common::types::HashableValue(
+                    chunk
+                        .column(col_idx)
+                        .and_then(|col| col.get_value(row))
+                        .unwrap_or(Value::Null),
+                )
             })
             .collect();
         GroupKey(parts)
@@ -645,15 +635,7 @@ impl GroupKey {
 
     /// Converts the group key back to values.
     fn to_values(&self) -> Vec<Value> {
-        self.0
-            .iter()
-            .map(|part| match part {
-                GroupKeyPart::Null => Value::Null,
-                GroupKeyPart::Bool(b) => Value::Bool(*b),
-                GroupKeyPart::Int64(i) => Value::Int64(*i),
-                GroupKeyPart::String(s) => Value::String(s.clone().into()),
-            })
-            .collect()
+        self.0.iter().map(|part| part.0.clone()).collect()
     }
 }
 
